@@ -77,6 +77,40 @@ type Msg struct {
 	Num    int32
 }
 
+// MsgB has the fields of Msg in another order: two methods listed in ONE
+// configuration entry may well use differently laid-out message types.
+type MsgB struct {
+	Num    int32
+	Items  []*Item
+	Names  []string
+	Nested *Inner
+	Pad    string
+	Name   string
+}
+
+// usesMsgB: which methods use the second layout (one of the extra methods, so
+// that an extra entry listing two names mixes both layouts).
+//
+//go:norace
+func usesMsgB(method int) bool { return method == MExtra0+1 }
+
+//go:norace
+func buildMsgFor(method, loc int, keys []string) interface{} {
+	m := buildMsg(loc, keys)
+	if !usesMsgB(method) {
+		return m
+	}
+	return &MsgB{Num: m.Num, Items: m.Items, Names: m.Names, Nested: m.Nested, Pad: "not-a-key", Name: m.Name}
+}
+
+//go:norace
+func emptyMsgFor(method int) interface{} {
+	if usesMsgB(method) {
+		return &MsgB{}
+	}
+	return &Msg{}
+}
+
 //go:norace
 func buildMsg(loc int, keys []string) *Msg {
 	m := &Msg{Num: 7}
@@ -132,7 +166,7 @@ type Call struct {
 	Returned     bool
 	Completed    bool
 	task         *kern.Task
-	req, reply   *Msg
+	req, reply   interface{}
 	// what was actually handed to the interceptor (C12: the picker must find
 	// exactly these in the call context)
 	sentReq, sentReply interface{}
@@ -337,6 +371,16 @@ func (s *Sim) run() {
 	api2.ChannelPool.MinSize = 5
 	api2.ChannelPool.MaxConcurrentStreamsLowWatermark = 50
 	api2.ChannelPool.FallbackToReady = !api2.ChannelPool.FallbackToReady
+	if api2.ChannelPool.UnresponsiveDetectionMs > 0 && api2.ChannelPool.UnresponsiveCalls > 0 {
+		api2.ChannelPool.UnresponsiveDetectionMs, api2.ChannelPool.UnresponsiveCalls = 0, 0
+	} else {
+		api2.ChannelPool.UnresponsiveDetectionMs, api2.ChannelPool.UnresponsiveCalls = 10, 1
+	}
+	if api2.ChannelPool.BindPickStrategy == pb.ChannelPoolConfig_ROUND_ROBIN {
+		api2.ChannelPool.BindPickStrategy = pb.ChannelPoolConfig_LEAST_ACTIVE_STREAMS
+	} else {
+		api2.ChannelPool.BindPickStrategy = pb.ChannelPoolConfig_ROUND_ROBIN
+	}
 	api2.Method = nil
 	s.cfg2 = &grpcgcp.GCPBalancerConfig{ApiConfig: api2}
 
@@ -515,6 +559,20 @@ func (s *Sim) checkKernel() {
 	}
 	s.stop = true
 	fn := simkit.FuncOfStack(f.Stack)
+	// a round-robin BIND pick that deadlocks or spins is also C09's "is handed its
+	// channel once READY, returns when its context ends"
+	rrBind := false
+	if s.plan.Cfg.RR {
+		for _, c := range s.calls {
+			if c.task != nil && c.task.Name == f.Task && c.Method == MBind && c.Invoked && !c.Returned {
+				rrBind = true
+			}
+		}
+	}
+	if rrBind && (f.Kind == "relock" || f.Kind == "spin") {
+		s.vio("C09", "rr-bind-never-returns", f.Kind+"|"+fn, fmt.Sprintf("round-robin BIND pick %s can never return: %s (in %s)", f.Task, f.Msg, fn))
+		s.stop = true
+	}
 	switch f.Kind {
 	case "relock":
 		s.vio("C06", "self-deadlock", fn, fmt.Sprintf("%s: %s (in %s)", f.Task, f.Msg, fn))
@@ -665,6 +723,23 @@ func (s *Sim) exec(i int, o Op) {
 			// the connection the most recent placed call went to
 			for j := len(s.calls) - 1; j >= 0; j-- {
 				if c := s.calls[j]; c.Res.Kind == ResPlaced && c.Res.Conn < len(env.Conns) {
+					sc = env.Conns[c.Res.Conn]
+					break
+				}
+			}
+		} else if o.A == -3 {
+			// the connection of the oldest call still in flight
+			for _, c := range s.calls {
+				if c.InFlight && !c.Completed && c.Res.Kind == ResPlaced && c.Res.Conn < len(env.Conns) {
+					sc = env.Conns[c.Res.Conn]
+					break
+				}
+			}
+		} else if o.A == -4 {
+			// the connection the most recently completed BIND call had been placed on
+			// (the home of the key it bound)
+			for j := len(s.calls) - 1; j >= 0; j-- {
+				if c := s.calls[j]; c.Method == MBind && c.Completed && c.Res.Kind == ResPlaced && c.Res.Conn < len(env.Conns) {
 					sc = env.Conns[c.Res.Conn]
 					break
 				}
@@ -861,8 +936,8 @@ func (s *Sim) startCall(i int, o Op) {
 	c.NilMsg = o.F&FlagNilMsg != 0
 	c.ReqKeys = keyNames(o.Keys)
 	loc := s.plan.Cfg.Locator % len(locators)
-	c.req = buildMsg(loc, c.ReqKeys)
-	c.reply = &Msg{}
+	c.req = buildMsgFor(o.B, loc, c.ReqKeys)
+	c.reply = emptyMsgFor(o.B)
 	c.waiter.Note = fmt.Sprintf("call %d in flight", c.ID)
 	base := context.Background()
 	if o.F&FlagChain != 0 && s.lastCallCtx != nil && !c.NoGCP {
@@ -1076,7 +1151,12 @@ func (s *Sim) waitAndComplete(c *Call) error {
 	var err error
 	switch c.Outcome {
 	case OutOK:
-		*c.reply = *buildMsg(s.plan.Cfg.Locator%len(locators), c.ReplyKeys)
+		switch rp := c.reply.(type) {
+		case *Msg:
+			*rp = *buildMsg(s.plan.Cfg.Locator%len(locators), c.ReplyKeys)
+		case *MsgB:
+			*rp = *(buildMsgFor(c.Method, s.plan.Cfg.Locator%len(locators), c.ReplyKeys).(*MsgB))
+		}
 	case OutAppErr:
 		err = status.Error(codes.Internal, "application error")
 	case OutClientDE, OutServerDE:
